@@ -3,6 +3,18 @@
 
   All theorems are over an arbitrary commutative semiring `R` (Mathlib `CommSemiring`), for
   expressions of any size, any number of variables and any variable sizes.
+
+  Main results
+    adjoint_sound_gen_partial   induction on the expression with the incoming adjoint generalised:
+                                for every node `e` and admissible message `a`, the accumulated adjoint of
+                                leaf `id` = derivative of ⨁ a ⊗ e  (cases sound_acc, sound_subs, sound_add,
+                                sound_mul, sound_sum, sound_prod; `Cat` nodes excluded = the partial part)
+    adjoint_sound_partial       the corollary for a root with incoming adjoint 1 (= C11 at model level)
+    agg_step / agg_ok           the tape's message aggregation is exactly the partial sum the proof needs
+    plate_zero_witness, plate_zero_not_good, add_broadcast_witness
+                                concrete inputs on which the sweep's rules return a wrong value, i.e. the
+                                hypotheses `Good` places on ⊗-reductions and on ⊕ cannot be dropped
+    examples                    `Good`, `SubsOK`, `WFL`, and the division hypothesis are satisfiable
 -/
 import FunsorVerif.Model.C11
 import Mathlib.Algebra.BigOperators.Ring.Finset
@@ -296,9 +308,17 @@ structure WFL (n : Nat) (L : Leaves R) : Prop where
       * ⊕ only between operands with the same inputs up to the root's inputs,
       * binders bind a variable that occurs and that is not an input of the root,
       * a product-reduced argument is nowhere zero (the plate rule divides),
-      * (partial) leaves are read directly: `Subs` and `Cat` nodes are covered by correspondence only. -/
+      * a leaf read through a substitution (`Subs`: renaming, slice, number, index tensor — the model's
+        scatter is the scatter-add, so no injectivity is needed here): distinct keys that are axes of the
+        leaf, and every input of the root is an unsubstituted axis of that leaf,
+      * (partial) `Cat` nodes are covered by correspondence only. -/
+def SubsOK (n : Nat) (F : Mask) (id : Nat) (σ : Subst) : Prop :=
+  (∀ q, q ∈ σ → nameMask L id q.1 = true) ∧ (σ.map (·.1)).Nodup ∧
+  (∀ k, σ.valvars k = true → k < n) ∧
+  (∀ k, F k = true → nameMask L id k = true ∧ σ.keys k = false)
+
 def Good (n : Nat) (F : Mask) : Expr → Prop
-  | .acc _ σ => σ = []
+  | .acc id σ => σ = [] ∨ SubsOK L n F id σ
   | .add l r => Good n F l ∧ Good n F r ∧ ∀ k, (fvMask L l k || F k) = (fvMask L r k || F k)
   | .mul l r => Good n F l ∧ Good n F r
   | .sum v e => Good n F e ∧ fvMask L e v = true ∧ F v = false
@@ -313,13 +333,137 @@ omit [CommSemiring R] in
 theorem fvMask_acc_nil (id k : Nat) : fvMask L (.acc id []) k = nameMask L id k := by
   simp [fvMask, Subst.keys, Subst.valvars]
 
+
+omit [CommSemiring R] in
+theorem lookup_none_iff (σ : Subst) (k : Nat) : σ.lookup k = none ↔ σ.keys k = false := by
+  simp only [Subst.keys]
+  induction σ with
+  | nil => simp
+  | cons q rest ih =>
+    simp only [List.lookup, List.any_cons]
+    by_cases h : k = q.1
+    · subst h; simp
+    · have h1 : (k == q.1) = false := by simpa using h
+      have h2 : (q.1 == k) = false := by simpa using (Ne.symm h)
+      rw [h1, h2]; simpa using ih
+
+omit [CommSemiring R] in
+theorem lookup_some_mem (σ : Subst) (k : Nat) (ix : Ix) (h : σ.lookup k = some ix) : (k, ix) ∈ σ := by
+  induction σ with
+  | nil => simp at h
+  | cons q rest ih =>
+    simp only [List.lookup] at h
+    by_cases hk : k = q.1
+    · subst hk; simp at h; subst h; simp
+    · have h1 : (k == q.1) = false := by simpa using hk
+      rw [h1] at h
+      exact List.mem_cons_of_mem _ (ih h)
+
+omit [CommSemiring R] in
+theorem lookup_of_mem_nodup (σ : Subst) (hnd : (σ.map (·.1)).Nodup) (q : Nat × Ix) (hq : q ∈ σ) :
+    σ.lookup q.1 = some q.2 := by
+  induction σ with
+  | nil => simp at hq
+  | cons r rest ih =>
+    simp only [List.map_cons, List.nodup_cons] at hnd
+    simp only [List.lookup]
+    rcases List.mem_cons.mp hq with h | h
+    · subst h; simp
+    · have hne : q.1 ≠ r.1 := by
+        intro he; apply hnd.1; rw [← he]
+        exact List.mem_map_of_mem (f := fun x => x.1) h
+      have h1 : (q.1 == r.1) = false := by simpa using hne
+      rw [h1]; exact ih hnd.2 h
+
+omit [CommSemiring R] in
+theorem ix_val_indep (ix : Ix) (k : Nat) (h : ix.dep k = false) (env : Env) (j : Nat) :
+    ix.val (upd env k j) = ix.val env := by
+  cases ix with
+  | var v =>
+    simp only [Ix.dep, beq_eq_false_iff_ne] at h
+    simp only [Ix.val]; exact upd_ne _ _ (Ne.symm h)
+  | aff v s st =>
+    simp only [Ix.dep, beq_eq_false_iff_ne] at h
+    simp only [Ix.val]; rw [upd_ne _ _ (Ne.symm h)]
+  | const c => rfl
+  | tab v t =>
+    simp only [Ix.dep, beq_eq_false_iff_ne] at h
+    simp only [Ix.val]; rw [upd_ne _ _ (Ne.symm h)]
+
+omit [CommSemiring R] in
+theorem valvars_false_dep (σ : Subst) (k : Nat) (h : σ.valvars k = false) (q : Nat × Ix) (hq : q ∈ σ) :
+    q.2.dep k = false := by
+  simp only [Subst.valvars, List.any_eq_false] at h
+  simpa using h q hq
+
+omit [CommSemiring R] in
+/-- a variable no index expression mentions passes through the substitution (or is shadowed by a key) -/
+theorem substEnv_upd (σ : Subst) (k : Nat) (h : σ.valvars k = false) (env : Env) (j : Nat) :
+    substEnv σ (upd env k j) =
+      if σ.keys k = true then substEnv σ env else upd (substEnv σ env) k j := by
+  funext i
+  cases hl : σ.lookup i with
+  | some ix =>
+    have hd := valvars_false_dep σ k h (i, ix) (lookup_some_mem σ i ix hl)
+    have e1 : substEnv σ (upd env k j) i = ix.val (upd env k j) := by simp only [substEnv, hl]
+    have e2 : substEnv σ env i = ix.val env := by simp only [substEnv, hl]
+    rw [e1, ix_val_indep ix k hd]
+    split
+    · exact e2.symm
+    · next hk =>
+      have hik : i ≠ k := by
+        intro he; subst he
+        have := (lookup_none_iff σ i).mpr (by simpa using hk)
+        rw [this] at hl; simp at hl
+      rw [upd_ne _ _ hik]; exact e2.symm
+  | none =>
+    have e1 : substEnv σ (upd env k j) i = upd env k j i := by simp only [substEnv, hl]
+    have e2 : substEnv σ env i = env i := by simp only [substEnv, hl]
+    rw [e1]
+    split
+    · next hk =>
+      have hik : i ≠ k := by
+        intro he; subst he
+        rw [(lookup_none_iff σ i).mp hl] at hk; simp at hk
+      rw [upd_ne _ _ hik]; exact e2.symm
+    · by_cases hik : i = k
+      · subst hik; rw [upd_at, upd_at]
+      · rw [upd_ne _ _ hik, upd_ne _ _ hik]; exact e2.symm
+
+omit [CommSemiring R] in
+theorem hits_upd_notin (names : List Nat) (q p : Env) (k j : Nat) (hk : names.contains k = false) :
+    hits names (upd q k j) p = hits names q p := by
+  have hik : ∀ i ∈ names, i ≠ k := by
+    intro i hi h; subst h
+    have : names.contains i = true := by simp [hi]
+    rw [this] at hk; exact absurd hk (by simp)
+  simp only [hits]
+  rw [Bool.eq_iff_iff]; simp only [List.all_eq_true]
+  constructor
+  · intro h i hi; have := h i hi; rwa [upd_ne _ _ (hik i hi)] at this
+  · intro h i hi; rw [upd_ne _ _ (hik i hi)]; exact h i hi
+
+omit [CommSemiring R] in
+theorem fvMask_acc_false (id : Nat) (σ : Subst) (k : Nat) (hk : fvMask L (.acc id σ) k = false) :
+    σ.valvars k = false ∧ (σ.keys k = false → nameMask L id k = false) := by
+  simp only [fvMask, Bool.or_eq_false_iff, Bool.and_eq_false_iff] at hk
+  refine ⟨hk.2, fun h => ?_⟩
+  rcases hk.1 with h' | h'
+  · exact h'
+  · rw [h] at h'; simp at h'
+
 theorem fv_lt {n : Nat} {F : Mask} (hW : WFL n L) :
     ∀ e, Good dv sz L n F e → ∀ k, fvMask L e k = true → k < n := by
   intro e
   induction e with
   | acc id σ =>
-    intro hg k hk; simp only [Good] at hg; subst hg
-    rw [fvMask_acc_nil] at hk; exact hW.hn id k hk
+    intro hg k hk
+    simp only [fvMask, Bool.or_eq_true, Bool.and_eq_true] at hk
+    rcases hk with h | h
+    · exact hW.hn id k h.1
+    · rcases hg with rfl | hs
+      · simp [Subst.valvars] at h
+      · exact hs.2.2.1 k h
   | add l r ihl ihr =>
     intro hg k hk; simp only [fvMask, Bool.or_eq_true] at hk
     rcases hk with h | h
@@ -343,9 +487,13 @@ theorem eval_indep {n : Nat} {F : Mask} (hW : WFL n L) :
   intro e
   induction e with
   | acc id σ =>
-    intro hg k hk env j; simp only [Good] at hg; subst hg
-    rw [fvMask_acc_nil] at hk
-    simp only [eval, substEnv_nil]; exact hW.hT id k hk env j
+    intro _ k hk env j
+    obtain ⟨hvv, hnm⟩ := fvMask_acc_false L id σ k hk
+    simp only [eval]
+    rw [substEnv_upd σ k hvv]
+    split
+    · rfl
+    · next hkk => exact hW.hT id k (hnm (by simpa using hkk)) _ j
   | add l r ihl ihr =>
     intro hg k hk env j; simp only [fvMask, Bool.or_eq_false_iff] at hk
     simp only [eval]; rw [ihl hg.1 k hk.1 env j, ihr hg.2.1 k hk.2 env j]
@@ -384,23 +532,18 @@ theorem deriv_indep {n : Nat} {F : Mask} (hW : WFL n L) (id : Nat) (p : Env) :
   intro e
   induction e with
   | acc id' σ =>
-    intro hg k hk env j; simp only [Good] at hg; subst hg
-    rw [fvMask_acc_nil] at hk
-    simp only [deriv, substEnv_nil]
-    by_cases hid : id' = id
-    · subst hid
-      have : hits (L.names id') (upd env k j) p = hits (L.names id') env p := by
-        have hik : ∀ i ∈ L.names id', i ≠ k := by
-          intro i hi h; subst h
-          have : nameMask L id' i = true := by simp [nameMask, hi]
-          rw [this] at hk; exact absurd hk (by simp)
-        simp only [hits]
-        rw [Bool.eq_iff_iff]; simp only [List.all_eq_true]
-        constructor
-        · intro h i hi; have := h i hi; rwa [upd_ne _ _ (hik i hi)] at this
-        · intro h i hi; rw [upd_ne _ _ (hik i hi)]; exact h i hi
-      rw [this]
-    · simp [hid]
+    intro _ k hk env j
+    obtain ⟨hvv, hnm⟩ := fvMask_acc_false L id' σ k hk
+    simp only [deriv]
+    rw [substEnv_upd σ k hvv]
+    split
+    · rfl
+    · next hkk =>
+      have : nameMask L id' k = false := hnm (by simpa using hkk)
+      by_cases hid : id' = id
+      · subst hid
+        rw [hits_upd_notin (L.names id') _ p k j (by simpa [nameMask] using this)]
+      · simp [hid]
   | add l r ihl ihr =>
     intro hg k hk env j; simp only [fvMask, Bool.or_eq_false_iff] at hk
     simp only [deriv]; rw [ihl hg.1 k hk.1 env j, ihr hg.2.1 k hk.2 env j]
@@ -496,260 +639,560 @@ theorem marginal_addNT (n : Nat) (F : Mask) (id : Nat) (x y : NT R) (p : Env) :
   simp only [marginal, addNT]
   exact congrFun (sumM_add dv sz n _ x.f y.f) p
 
-theorem adjoint_sound_gen {n : Nat} {F : Mask} (hW : WFL n L) (hF : ∀ k, F k = true → k < n)
+/-- The induction hypothesis: for every admissible incoming adjoint `a` of node `e`, the adjoint the
+    sweep accumulates for leaf `id`, marginalised onto the leaf's axes and read at entry `p`, is the
+    derivative of `⨁_{inputs of e and of the root} a ⊗ e` with respect to that entry. -/
+def Sound (n : Nat) (F : Mask) (id : Nat) (p : Env) (e : Expr) : Prop :=
+  ∀ a : NT R,
+    (∀ k, a.mask k = true → fvMask L e k = true ∨ F k = true) →
+    (∀ k, a.mask k = false → Indep a.f k) →
+    marginal (cs dv) sz L n F id (backward (cs dv) sz L n F e a id) p =
+      sumM (cs dv) sz n (fun k => fvMask L e k || F k)
+        (fun env => a.f env * deriv (cs dv) sz L id p e env) p
+
+theorem bm_mul (vc vo f ak : Bool) (h : ak = true → (vc || vo) = true ∨ f = true) :
+    ((vc || f) || ((ak || vo) && !vc && !f)) = ((vc || vo) || f) := by
+  cases vc <;> cases vo <;> cases f <;> cases ak <;> simp_all
+
+theorem bm_add (vc vo f ak : Bool) (h : ak = true → (vc || vo) = true ∨ f = true)
+    (hs : (vc || f) = (vo || f)) :
+    ((vc || f) || (ak && !vc && !f)) = ((vc || vo) || f) := by
+  cases vc <;> cases vo <;> cases f <;> cases ak <;> simp_all
+
+theorem bm_red (ve f ak kv x : Bool) (h : ak = true → (ve && !kv) = true ∨ f = true)
+    (hv : kv = true → ve = true) (hx : x = true → ve = true) :
+    ((ve || f) || ((ak || x) && !ve && !f)) = (((ve && !kv) || f) || kv) := by
+  cases ve <;> cases f <;> cases ak <;> cases kv <;> cases x <;> simp_all
+
+theorem bm_prod (ve f ak kv : Bool) (h : ak = true → (ve && !kv) = true ∨ f = true)
+    (hv : kv = true → ve = true) :
+    ((ve || f) || (((ak || (ve && !kv)) || ve) && !ve && !f)) = (((ve && !kv) || f) || kv) := by
+  cases ve <;> cases f <;> cases ak <;> cases kv <;> simp_all
+
+theorem sound_acc {n : Nat} {F : Mask} (id : Nat) (p : Env)
+    (hp : ∀ k, nameMask L id k = true → p k < sz k) (id' : Nat) :
+    Sound dv sz L n F id p (.acc id' []) := by
+  intro a _ _
+  simp only [backward, List.isEmpty_nil, if_true, single]
+  by_cases hid : id = id'
+  · subst hid
+    simp only [if_true, marginal]
+    rw [sumM_congr_mask dv sz (m := fun k => fvMask L (.acc id []) k || F k)
+      (m' := fun k => (F k && !nameMask L id k) || nameMask L id k)
+      (fun k _ => by rw [fvMask_acc_nil]; cases F k <;> cases nameMask L id k <;> rfl)]
+    rw [sumM_split dv sz (m1 := fun k => F k && !nameMask L id k) (m2 := nameMask L id)
+      (fun k _ h => by
+        have h1 := h.1; have h2 := h.2
+        rw [h2] at h1; simp at h1)]
+    apply sumM_congr_on
+    intro env' he
+    have hag : ∀ k, nameMask L id k = true → env' k = p k := by
+      intro k hk
+      rcases he k with ⟨_, h⟩ | h
+      · rw [hk] at h; simp at h
+      · exact h
+    rw [sumM_point dv sz]
+    · have : hits (L.names id) (substEnv [] env') p = true := by
+        rw [hits_iff, substEnv_nil]; intro k hk
+        exact hag k (by simp [nameMask, hk])
+      simp only [deriv, this, and_self, if_true]
+      show a.f env' = a.f env' * 1
+      rw [mul_one]
+    · intro k _ hk; rw [hag k hk]; exact hp k hk
+    · intro env'' ⟨k, _, hk, hne⟩
+      have : hits (L.names id) (substEnv [] env'') p = false := by
+        rw [Bool.eq_false_iff]; intro h
+        rw [hits_iff, substEnv_nil] at h
+        have hk' : k ∈ L.names id := by simpa [nameMask] using hk
+        exact hne (by rw [h k hk', hag k hk])
+      simp only [deriv, this]
+      rw [if_neg (by simp)]
+      show a.f env'' * 0 = 0
+      rw [mul_zero]
+  · simp only [if_neg hid, marginal, zeroNT]
+    show sumM (cs dv) sz n _ (fun _ => (0 : R)) p = _
+    rw [sumM_zero]
+    have : (fun env => a.f env * deriv (cs dv) sz L id p (.acc id' []) env) = fun _ => 0 := by
+      funext env
+      simp only [deriv]
+      rw [if_neg (fun h => hid h.1.symm)]
+      show a.f env * 0 = 0
+      rw [mul_zero]
+    rw [this, sumM_zero]
+
+
+theorem cs_zero : (cs dv).zero = (0 : R) := rfl
+theorem cs_one : (cs dv).one = (1 : R) := rfl
+
+omit [CommSemiring R] in
+theorem hits_subst (id : Nat) (σ : Subst) (h1 : ∀ q, q ∈ σ → nameMask L id q.1 = true)
+    (h2 : (σ.map (·.1)).Nodup) (env' p : Env)
+    (hag : ∀ k, nameMask L id k = true → σ.keys k = false → env' k = p k) :
+    hits (L.names id) (substEnv σ env') p = σ.all (fun q => q.2.val env' == p q.1) := by
+  rw [Bool.eq_iff_iff, hits_iff]
+  simp only [List.all_eq_true, beq_iff_eq]
+  constructor
+  · intro h q hq
+    have hk : q.1 ∈ L.names id := by simpa [nameMask] using h1 q hq
+    have := h q.1 hk
+    simp only [substEnv, lookup_of_mem_nodup σ h2 q hq] at this
+    exact this
+  · intro h k hk
+    cases hl : σ.lookup k with
+    | none =>
+      simp only [substEnv, hl]
+      exact hag k (by simp [nameMask, hk]) ((lookup_none_iff σ k).mp hl)
+    | some ix =>
+      simp only [substEnv, hl]
+      exact h (k, ix) (lookup_some_mem σ k ix hl)
+
+theorem bm_subs (keep vv f am : Bool) (h1 : am = true → (keep || vv) = true ∨ f = true)
+    (h2 : f = true → keep = true) :
+    ((keep || vv) || f) = (((am || vv) && !keep) || keep) := by
+  cases keep <;> cases vv <;> cases f <;> cases am <;> simp_all
+
+/-- `adjoint_subs` / `Scatter`: the transpose of reading a leaf through a substitution. -/
+theorem sound_subs {n : Nat} {F : Mask} (id : Nat) (p : Env)
+    (hp : ∀ k, nameMask L id k = true → p k < sz k) (id' : Nat) (σ : Subst) (hne : σ ≠ [])
+    (hs : SubsOK L n F id' σ) :
+    Sound dv sz L n F id p (.acc id' σ) := by
+  intro a ha1 _
+  obtain ⟨s1, s2, _, s4⟩ := hs
+  have hemp : σ.isEmpty = false := by
+    cases σ with
+    | nil => exact absurd rfl hne
+    | cons _ _ => rfl
+  simp only [backward, hemp, Bool.false_eq_true, if_false, single]
+  by_cases hid : id = id'
+  · subst hid
+    simp only [if_true, marginal]
+    rw [sumM_false dv sz (m := fun k => F k && !nameMask L id k) (fun k _ => by
+      cases hf : F k
+      · rfl
+      · rw [(s4 k hf).1]; rfl)]
+    rw [sumM_congr_mask dv sz (m := fun k => fvMask L (.acc id σ) k || F k)
+      (m' := fun k => ((a.mask k || σ.valvars k) && !(nameMask L id k && !σ.keys k)) ||
+        (nameMask L id k && !σ.keys k))
+      (fun k _ => by
+        simp only [fvMask]
+        exact bm_subs _ _ _ _ (by intro h; simpa only [fvMask] using ha1 k h)
+          (by intro h; have := s4 k h; simp [this.1, this.2]))]
+    rw [sumM_split dv sz
+      (m1 := fun k => (a.mask k || σ.valvars k) && !(nameMask L id k && !σ.keys k))
+      (m2 := fun k => nameMask L id k && !σ.keys k)
+      (fun k _ h => by
+        have h1 := h.1; have h2 := h.2
+        rw [h2] at h1; simp at h1)]
+    simp only [scatter]
+    apply sumM_congr_on
+    intro env' he
+    have hag : ∀ k, nameMask L id k = true → σ.keys k = false → env' k = p k := by
+      intro k hk1 hk2
+      rcases he k with ⟨_, h⟩ | h
+      · simp [hk1, hk2] at h
+      · exact h
+    rw [sumM_point dv sz]
+    · simp only [deriv, true_and, hits_subst L id σ s1 s2 env' p hag, cs_zero, cs_one]
+      split
+      · show a.f env' = a.f env' * 1
+        rw [mul_one]
+      · show (0 : R) = a.f env' * 0
+        rw [mul_zero]
+    · intro k _ hk
+      simp only [Bool.and_eq_true, Bool.not_eq_true'] at hk
+      rw [hag k hk.1 hk.2]; exact hp k hk.1
+    · intro env'' ⟨k, _, hk, hne'⟩
+      simp only [Bool.and_eq_true, Bool.not_eq_true'] at hk
+      have : hits (L.names id) (substEnv σ env'') p = false := by
+        rw [Bool.eq_false_iff]; intro h
+        rw [hits_iff] at h
+        have hk' : k ∈ L.names id := by simpa [nameMask] using hk.1
+        have := h k hk'
+        simp only [substEnv, (lookup_none_iff σ k).mpr hk.2] at this
+        exact hne' (by rw [this, hag k hk.1 hk.2])
+      simp only [deriv, this]
+      rw [if_neg (by simp)]
+      show a.f env'' * 0 = 0
+      rw [mul_zero]
+  · simp only [if_neg hid, marginal, zeroNT]
+    show sumM (cs dv) sz n _ (fun _ => (0 : R)) p = _
+    rw [sumM_zero]
+    have : (fun env => a.f env * deriv (cs dv) sz L id p (.acc id' σ) env) = fun _ => 0 := by
+      funext env
+      simp only [deriv]
+      rw [if_neg (fun h => hid h.1.symm)]
+      show a.f env * 0 = 0
+      rw [mul_zero]
+    rw [this, sumM_zero]
+
+theorem sound_add {n : Nat} {F : Mask} (hW : WFL n L) (hF : ∀ k, F k = true → k < n)
+    (id : Nat) (p : Env) (l r : Expr) (hg : Good dv sz L n F (.add l r))
+    (ihl : Sound dv sz L n F id p l) (ihr : Sound dv sz L n F id p r) :
+    Sound dv sz L n F id p (.add l r) := by
+  intro a ha1 ha2
+  have hfv := fv_lt dv sz L hW _ hg
+  obtain ⟨hgl, hgr, hsame⟩ := hg
+  have han : ∀ k, a.mask k = true → k < n := by
+    intro k hk
+    rcases ha1 k hk with h | h
+    · exact hfv k h
+    · exact hF k h
+  simp only [backward, addF]
+  rw [marginal_addNT]
+  obtain ⟨okl1, okl2⟩ := agg_ok dv sz F (fvMask L l) a han ha2
+  obtain ⟨okr1, okr2⟩ := agg_ok dv sz F (fvMask L r) a han ha2
+  rw [ihl _ okl1 okl2, ihr _ okr1 okr2]
+  rw [agg_step dv sz F (fvMask L l) a _ (deriv_indep dv sz L hW id p l hgl),
+      agg_step dv sz F (fvMask L r) a _ (deriv_indep dv sz L hW id p r hgr)]
+  have hml : ∀ k, k < n →
+      ((fvMask L l k || F k) || (a.mask k && !fvMask L l k && !F k)) =
+        (fvMask L (.add l r) k || F k) := by
+    intro k _
+    exact bm_add _ _ _ _ (ha1 k) (hsame k)
+  have hmr : ∀ k, k < n →
+      ((fvMask L r k || F k) || (a.mask k && !fvMask L r k && !F k)) =
+        (fvMask L (.add l r) k || F k) := by
+    intro k _
+    have := bm_add (fvMask L r k) (fvMask L l k) (F k) (a.mask k)
+      (by intro h; have := ha1 k h; simp only [fvMask] at this; rw [Bool.or_comm]; exact this)
+      (hsame k).symm
+    rw [this]; simp only [fvMask]; rw [Bool.or_comm (fvMask L r k)]
+  rw [sumM_congr_mask dv sz hml, sumM_congr_mask dv sz hmr]
+  have := congrFun (sumM_add dv sz n (fun k => fvMask L (.add l r) k || F k)
+    (fun env => a.f env * deriv (cs dv) sz L id p l env)
+    (fun env => a.f env * deriv (cs dv) sz L id p r env)) p
+  rw [← this]
+  congr 1; funext env
+  simp only [deriv]
+  show a.f env * _ + a.f env * _ = a.f env * (_ + _)
+  rw [mul_add]
+
+theorem sound_mul {n : Nat} {F : Mask} (hW : WFL n L) (hF : ∀ k, F k = true → k < n)
+    (id : Nat) (p : Env) (l r : Expr) (hg : Good dv sz L n F (.mul l r))
+    (ihl : Sound dv sz L n F id p l) (ihr : Sound dv sz L n F id p r) :
+    Sound dv sz L n F id p (.mul l r) := by
+  intro a ha1 ha2
+  have hfv := fv_lt dv sz L hW _ hg
+  obtain ⟨hgl, hgr⟩ := hg
+  have han : ∀ k, a.mask k = true → k < n := by
+    intro k hk
+    rcases ha1 k hk with h | h
+    · exact hfv k h
+    · exact hF k h
+  simp only [backward, addF]
+  rw [marginal_addNT]
+  -- messages: out_adj ⊗ rhs  and  out_adj ⊗ lhs
+  have hb1r : ∀ k, (mulNT (cs dv) a (valNT (cs dv) sz L r)).mask k = true → k < n := by
+    intro k hk
+    simp only [mulNT, valNT, Bool.or_eq_true] at hk
+    rcases hk with h | h
+    · exact han k h
+    · apply hfv; simp only [fvMask, Bool.or_eq_true]; exact Or.inr h
+  have hb1l : ∀ k, (mulNT (cs dv) a (valNT (cs dv) sz L l)).mask k = true → k < n := by
+    intro k hk
+    simp only [mulNT, valNT, Bool.or_eq_true] at hk
+    rcases hk with h | h
+    · exact han k h
+    · apply hfv; simp only [fvMask, Bool.or_eq_true]; exact Or.inl h
+  have hb2 : ∀ (c : Expr), Good dv sz L n F c → ∀ k,
+      (mulNT (cs dv) a (valNT (cs dv) sz L c)).mask k = false →
+        Indep (mulNT (cs dv) a (valNT (cs dv) sz L c)).f k := by
+    intro c hc k hk env j
+    simp only [mulNT, valNT, Bool.or_eq_false_iff] at hk ⊢
+    rw [ha2 k hk.1 env j, eval_indep dv sz L hW c hc k hk.2 env j]
+  obtain ⟨okl1, okl2⟩ := agg_ok dv sz F (fvMask L l) _ hb1r (hb2 r hgr)
+  obtain ⟨okr1, okr2⟩ := agg_ok dv sz F (fvMask L r) _ hb1l (hb2 l hgl)
+  rw [ihl _ okl1 okl2, ihr _ okr1 okr2]
+  rw [agg_step dv sz F (fvMask L l) _ _ (deriv_indep dv sz L hW id p l hgl),
+      agg_step dv sz F (fvMask L r) _ _ (deriv_indep dv sz L hW id p r hgr)]
+  have hml : ∀ k, k < n →
+      ((fvMask L l k || F k) || ((mulNT (cs dv) a (valNT (cs dv) sz L r)).mask k && !fvMask L l k && !F k)) =
+        (fvMask L (.mul l r) k || F k) := by
+    intro k _
+    exact bm_mul _ _ _ _ (ha1 k)
+  have hmr : ∀ k, k < n →
+      ((fvMask L r k || F k) || ((mulNT (cs dv) a (valNT (cs dv) sz L l)).mask k && !fvMask L r k && !F k)) =
+        (fvMask L (.mul l r) k || F k) := by
+    intro k _
+    have := bm_mul (fvMask L r k) (fvMask L l k) (F k) (a.mask k)
+      (by intro h; have := ha1 k h; simp only [fvMask] at this; rw [Bool.or_comm]; exact this)
+    simp only [mulNT, valNT]
+    rw [this]; simp only [fvMask]; rw [Bool.or_comm (fvMask L r k)]
+  rw [sumM_congr_mask dv sz hml, sumM_congr_mask dv sz hmr]
+  have := congrFun (sumM_add dv sz n (fun k => fvMask L (.mul l r) k || F k)
+    (fun env => (mulNT (cs dv) a (valNT (cs dv) sz L r)).f env * deriv (cs dv) sz L id p l env)
+    (fun env => (mulNT (cs dv) a (valNT (cs dv) sz L l)).f env * deriv (cs dv) sz L id p r env)) p
+  rw [← this]
+  congr 1; funext env
+  simp only [deriv, mulNT, valNT]
+  show a.f env * eval (cs dv) sz L r env * deriv (cs dv) sz L id p l env +
+      a.f env * eval (cs dv) sz L l env * deriv (cs dv) sz L id p r env =
+    a.f env * (deriv (cs dv) sz L id p l env * eval (cs dv) sz L r env +
+      eval (cs dv) sz L l env * deriv (cs dv) sz L id p r env)
+  ring
+
+theorem bne_eq (k v : Nat) : (k != v) = !(k == v) := rfl
+
+theorem sound_sum {n : Nat} {F : Mask} (hW : WFL n L) (hF : ∀ k, F k = true → k < n)
+    (id : Nat) (p : Env) (v : Nat) (e : Expr) (hg : Good dv sz L n F (.sum v e))
+    (ih : Sound dv sz L n F id p e) :
+    Sound dv sz L n F id p (.sum v e) := by
+  intro a ha1 ha2
+  obtain ⟨hge, hv, hFv⟩ := hg
+  have hfv := fv_lt dv sz L hW _ hge
+  have hvn : v < n := hfv v hv
+  have han : ∀ k, a.mask k = true → k < n := by
+    intro k hk
+    rcases ha1 k hk with h | h
+    · simp only [fvMask, Bool.and_eq_true] at h; exact hfv k h.1
+    · exact hF k h
+  have hav : a.mask v = false := by
+    cases h : a.mask v
+    · rfl
+    · rcases ha1 v h with h' | h'
+      · simp [fvMask] at h'
+      · rw [hFv] at h'; exact absurd h' (by simp)
+  simp only [backward]
+  obtain ⟨ok1, ok2⟩ := agg_ok dv sz F (fvMask L e) a han ha2
+  rw [ih _ ok1 ok2, agg_step dv sz F (fvMask L e) a _ (deriv_indep dv sz L hW id p e hge)]
+  have hm : ∀ k, k < n →
+      ((fvMask L e k || F k) || (a.mask k && !fvMask L e k && !F k)) =
+        ((fvMask L (.sum v e) k || F k) || k == v) := by
+    intro k _
+    have := bm_red (fvMask L e k) (F k) (a.mask k) (k == v) false
+      (by intro h; have := ha1 k h; simpa only [fvMask, bne_eq] using this)
+      (by intro h; have : k = v := by simpa using h
+          subst this; exact hv)
+      (by simp)
+    simp only [Bool.or_false] at this
+    rw [this]; simp only [fvMask, bne_eq]
+  rw [sumM_congr_mask dv sz hm]
+  rw [← sumM_insert dv sz hvn (by simp [fvMask, hFv])]
+  congr 1
+  rw [sum1_mul_left dv sz v a.f _ (ha2 v hav)]
+  rfl
+
+theorem sound_prod {n : Nat} {F : Mask} (hW : WFL n L) (hF : ∀ k, F k = true → k < n)
+    (hdv : ∀ x y : R, y ≠ 0 → dv (x * y) y = x)
+    (id : Nat) (p : Env) (v : Nat) (e : Expr) (hgp : Good dv sz L n F (.prod v e))
+    (ih : Sound dv sz L n F id p e) :
+    Sound dv sz L n F id p (.prod v e) := by
+  intro a ha1 ha2
+  have hgp' := hgp
+  obtain ⟨hge, hv, hFv, hnz⟩ := hgp'
+  have hfv := fv_lt dv sz L hW _ hge
+  have hvn : v < n := hfv v hv
+  have han : ∀ k, a.mask k = true → k < n := by
+    intro k hk
+    rcases ha1 k hk with h | h
+    · simp only [fvMask, Bool.and_eq_true] at h; exact hfv k h.1
+    · exact hF k h
+  have hav : a.mask v = false := by
+    cases h : a.mask v
+    · rfl
+    · rcases ha1 v h with h' | h'
+      · simp [fvMask] at h'
+      · rw [hFv] at h'; exact absurd h' (by simp)
+  simp only [backward]
+  -- the message  safediv(out_adj ⊗ out, arg)
+  generalize hb : divNT (cs dv) (mulNT (cs dv) a (valNT (cs dv) sz L (.prod v e)))
+      (valNT (cs dv) sz L e) = b
+  have hbm : ∀ k, b.mask k = ((a.mask k || (fvMask L e k && !(k == v))) || fvMask L e k) := by
+    intro k; rw [← hb]; simp only [divNT, mulNT, valNT, fvMask, bne_eq]
+  have hbf : ∀ env, b.f env = dv (a.f env * eval (cs dv) sz L (.prod v e) env)
+      (eval (cs dv) sz L e env) := by
+    intro env; rw [← hb]; rfl
+  have hb1 : ∀ k, b.mask k = true → k < n := by
+    intro k hk
+    rw [hbm] at hk
+    simp only [Bool.or_eq_true, Bool.and_eq_true] at hk
+    rcases hk with (h | h) | h
+    · exact han k h
+    · exact hfv k h.1
+    · exact hfv k h
+  have hb2 : ∀ k, b.mask k = false → Indep b.f k := by
+    intro k hk env j
+    rw [hbm] at hk
+    simp only [Bool.or_eq_false_iff] at hk
+    rw [hbf, hbf, ha2 k hk.1.1 env j,
+      eval_indep dv sz L hW _ hgp k (by simpa only [fvMask, bne_eq] using hk.1.2) env j,
+      eval_indep dv sz L hW e hge k hk.2 env j]
+  obtain ⟨ok1, ok2⟩ := agg_ok dv sz F (fvMask L e) b hb1 hb2
+  rw [ih _ ok1 ok2, agg_step dv sz F (fvMask L e) b _ (deriv_indep dv sz L hW id p e hge)]
+  have hm : ∀ k, k < n →
+      ((fvMask L e k || F k) || (b.mask k && !fvMask L e k && !F k)) =
+        ((fvMask L (.prod v e) k || F k) || k == v) := by
+    intro k _
+    rw [hbm]
+    simp only [fvMask, bne_eq]
+    exact bm_prod _ _ _ _
+      (by intro h; have := ha1 k h; simpa only [fvMask, bne_eq] using this)
+      (by intro h; have : k = v := by simpa using h
+          subst this; exact hv)
+  rw [sumM_congr_mask dv sz hm]
+  rw [← sumM_insert dv sz hvn (by simp [fvMask, hFv])]
+  congr 1
+  funext env
+  rw [sum1_apply]
+  simp only [hbf]
+  simp only [deriv, eval, sumTo_eq, prodTo_eq]
+  show ∑ j ∈ range (sz v), dv (a.f (upd env v j) * ∏ i ∈ range (sz v),
+        eval (cs dv) sz L e (upd (upd env v j) v i)) (eval (cs dv) sz L e (upd env v j)) *
+        deriv (cs dv) sz L id p e (upd env v j) =
+    a.f env * ∑ j ∈ range (sz v), deriv (cs dv) sz L id p e (upd env v j) *
+        ∏ i ∈ range (sz v), (if i = j then 1 else eval (cs dv) sz L e (upd env v i))
+  rw [mul_sum]
+  apply sum_congr rfl
+  intro j hj
+  have hj' : j < sz v := mem_range.mp hj
+  simp only [upd_same]
+  rw [ha2 v hav env j]
+  rw [← prod_except hj' (fun i => eval (cs dv) sz L e (upd env v i))]
+  rw [← mul_assoc, hdv _ _ (hnz (upd env v j))]
+  ring
+
+/-- **Soundness of the reverse sweep (generalised incoming adjoint).**  Partial: `Good` excludes
+    `Cat` nodes (covered by the correspondence harness only). -/
+theorem adjoint_sound_gen_partial {n : Nat} {F : Mask} (hW : WFL n L) (hF : ∀ k, F k = true → k < n)
     (hdv : ∀ x y : R, y ≠ 0 → dv (x * y) y = x)
     (id : Nat) (p : Env) (hp : ∀ k, nameMask L id k = true → p k < sz k) :
-    ∀ e, Good dv sz L n F e → ∀ a : NT R,
-      (∀ k, a.mask k = true → fvMask L e k = true ∨ F k = true) →
-      (∀ k, a.mask k = false → Indep a.f k) →
-      marginal (cs dv) sz L n F id (backward (cs dv) sz L n F e a id) p =
-        sumM (cs dv) sz n (fun k => fvMask L e k || F k)
-          (fun env => a.f env * deriv (cs dv) sz L id p e env) p := by
+    ∀ e, Good dv sz L n F e → Sound dv sz L n F id p e := by
   intro e
   induction e with
   | acc id' σ =>
-    intro hg a ha1 ha2
-    simp only [Good] at hg; subst hg
-    simp only [backward, List.isEmpty_nil, if_true, single]
-    by_cases hid : id = id'
-    · subst hid
-      simp only [if_true, marginal]
-      rw [sumM_congr_mask dv sz (m' := fun k => (F k && !nameMask L id k) || nameMask L id k)
-        (fun k _ => by rw [fvMask_acc_nil]; cases F k <;> cases nameMask L id k <;> rfl)]
-      rw [sumM_split dv sz (m1 := fun k => F k && !nameMask L id k) (m2 := nameMask L id)
-        (fun k _ h => by
-          have h1 := h.1; have h2 := h.2
-          rw [h2] at h1; simp at h1)]
-      apply sumM_congr_on
-      intro env' he
-      have hag : ∀ k, nameMask L id k = true → env' k = p k := by
-        intro k hk
-        rcases he k with ⟨_, h⟩ | h
-        · rw [hk] at h; simp at h
-        · exact h
-      rw [sumM_point dv sz]
-      · have : hits (L.names id) (substEnv [] env') p = true := by
-          rw [hits_iff, substEnv_nil]; intro k hk
-          exact hag k (by simp [nameMask, hk])
-        simp only [deriv, this, and_self, if_true]
-        show a.f env' = a.f env' * 1
-        rw [mul_one]
-      · intro k _ hk; rw [hag k hk]; exact hp k hk
-      · intro env'' ⟨k, _, hk, hne⟩
-        have : hits (L.names id) (substEnv [] env'') p = false := by
-          rw [Bool.eq_false_iff]; intro h
-          rw [hits_iff, substEnv_nil] at h
-          have hk' : k ∈ L.names id := by simpa [nameMask] using hk
-          exact hne (by rw [h k hk', hag k hk])
-        simp only [deriv, this]
-        show a.f env'' * (if id = id ∧ false = true then 1 else 0) = 0
-        simp
-    · simp only [if_neg hid, marginal, zeroNT]
-      rw [sumM_zero]
-      have : (fun env => a.f env * deriv (cs dv) sz L id p (.acc id' []) env) = fun _ => 0 := by
-        funext env
-        simp only [deriv]
-        rw [if_neg (fun h => hid h.1.symm)]
-        show a.f env * 0 = 0
-        rw [mul_zero]
-      rw [this, sumM_zero]
+    intro hg
+    by_cases hne : σ = []
+    · subst hne; exact sound_acc dv sz L id p hp id'
+    · rcases hg with h | h
+      · exact absurd h hne
+      · exact sound_subs dv sz L id p hp id' σ hne h
   | add l r ihl ihr =>
-    intro hg a ha1 ha2
-    obtain ⟨hgl, hgr, hsame⟩ := hg
-    have han : ∀ k, a.mask k = true → k < n := by
-      intro k hk
-      rcases ha1 k hk with h | h
-      · exact fv_lt dv sz L hW _ (show Good dv sz L n F (.add l r) from ⟨hgl, hgr, hsame⟩) k h
-      · exact hF k h
-    simp only [backward, addF]
-    rw [marginal_addNT]
-    obtain ⟨okl1, okl2⟩ := agg_ok dv sz F (fvMask L l) a han ha2
-    obtain ⟨okr1, okr2⟩ := agg_ok dv sz F (fvMask L r) a han ha2
-    rw [ihl hgl _ okl1 okl2, ihr hgr _ okr1 okr2]
-    rw [agg_step dv sz F (fvMask L l) a _ (deriv_indep dv sz L hW id p l hgl),
-        agg_step dv sz F (fvMask L r) a _ (deriv_indep dv sz L hW id p r hgr)]
-    have hm : ∀ (c : Expr), (c = l ∨ c = r) → ∀ k, k < n →
-        ((fvMask L c k || F k) || (a.mask k && !fvMask L c k && !F k)) =
-          (fvMask L (.add l r) k || F k) := by
-      intro c hc k _
-      have h1 := ha1 k
-      have h2 := hsame k
-      simp only [fvMask] at h1 ⊢
-      rcases hc with rfl | rfl <;>
-        cases hl : fvMask L l k <;> cases hr : fvMask L c k <;> cases hf : F k <;>
-        cases hak : a.mask k <;> simp_all
-    rw [sumM_congr_mask dv sz (hm l (Or.inl rfl)), sumM_congr_mask dv sz (hm r (Or.inr rfl))]
-    have := congrFun (sumM_add dv sz n (fun k => fvMask L (.add l r) k || F k)
-      (fun env => a.f env * deriv (cs dv) sz L id p l env)
-      (fun env => a.f env * deriv (cs dv) sz L id p r env)) p
-    rw [← this]
-    congr 1; funext env
-    simp only [deriv]
-    show a.f env * _ + a.f env * _ = a.f env * (_ + _)
-    rw [mul_add]
+    intro hg; exact sound_add dv sz L hW hF id p l r hg (ihl hg.1) (ihr hg.2.1)
   | mul l r ihl ihr =>
-    intro hg a ha1 ha2
-    obtain ⟨hgl, hgr⟩ := hg
-    have hfv := fv_lt dv sz L hW _ (show Good dv sz L n F (.mul l r) from ⟨hgl, hgr⟩)
-    have han : ∀ k, a.mask k = true → k < n := by
-      intro k hk
-      rcases ha1 k hk with h | h
-      · exact hfv k h
-      · exact hF k h
-    simp only [backward, addF]
-    rw [marginal_addNT]
-    -- messages: out_adj ⊗ rhs  and  out_adj ⊗ lhs
-    have hb1 : ∀ (c : Expr), (c = l ∨ c = r) → ∀ k,
-        (mulNT (cs dv) a (valNT (cs dv) sz L c)).mask k = true → k < n := by
-      intro c hc k hk
-      simp only [mulNT, valNT, Bool.or_eq_true] at hk
-      rcases hk with h | h
-      · exact han k h
-      · apply hfv; simp only [fvMask, Bool.or_eq_true]
-        rcases hc with rfl | rfl
-        · exact Or.inl h
-        · exact Or.inr h
-    have hb2 : ∀ (c : Expr), Good dv sz L n F c → ∀ k,
-        (mulNT (cs dv) a (valNT (cs dv) sz L c)).mask k = false →
-          Indep (mulNT (cs dv) a (valNT (cs dv) sz L c)).f k := by
-      intro c hc k hk env j
-      simp only [mulNT, valNT, Bool.or_eq_false_iff] at hk ⊢
-      rw [ha2 k hk.1 env j, eval_indep dv sz L hW c hc k hk.2 env j]
-    obtain ⟨okl1, okl2⟩ := agg_ok dv sz F (fvMask L l) _ (hb1 r (Or.inr rfl)) (hb2 r hgr)
-    obtain ⟨okr1, okr2⟩ := agg_ok dv sz F (fvMask L r) _ (hb1 l (Or.inl rfl)) (hb2 l hgl)
-    rw [ihl hgl _ okl1 okl2, ihr hgr _ okr1 okr2]
-    rw [agg_step dv sz F (fvMask L l) _ _ (deriv_indep dv sz L hW id p l hgl),
-        agg_step dv sz F (fvMask L r) _ _ (deriv_indep dv sz L hW id p r hgr)]
-    have hml : ∀ k, k < n →
-        ((fvMask L l k || F k) || ((mulNT (cs dv) a (valNT (cs dv) sz L r)).mask k && !fvMask L l k && !F k)) =
-          (fvMask L (.mul l r) k || F k) := by
-      intro k _
-      have h1 := ha1 k
-      simp only [fvMask, mulNT, valNT] at h1 ⊢
-      cases hl : fvMask L l k <;> cases hr : fvMask L r k <;> cases hf : F k <;>
-        cases hak : a.mask k <;> simp_all
-    have hmr : ∀ k, k < n →
-        ((fvMask L r k || F k) || ((mulNT (cs dv) a (valNT (cs dv) sz L l)).mask k && !fvMask L r k && !F k)) =
-          (fvMask L (.mul l r) k || F k) := by
-      intro k _
-      have h1 := ha1 k
-      simp only [fvMask, mulNT, valNT] at h1 ⊢
-      cases hl : fvMask L l k <;> cases hr : fvMask L r k <;> cases hf : F k <;>
-        cases hak : a.mask k <;> simp_all
-    rw [sumM_congr_mask dv sz hml, sumM_congr_mask dv sz hmr]
-    have := congrFun (sumM_add dv sz n (fun k => fvMask L (.mul l r) k || F k)
-      (fun env => (mulNT (cs dv) a (valNT (cs dv) sz L r)).f env * deriv (cs dv) sz L id p l env)
-      (fun env => (mulNT (cs dv) a (valNT (cs dv) sz L l)).f env * deriv (cs dv) sz L id p r env)) p
-    rw [← this]
-    congr 1; funext env
-    simp only [deriv, mulNT, valNT]
-    show a.f env * eval (cs dv) sz L r env * deriv (cs dv) sz L id p l env +
-        a.f env * eval (cs dv) sz L l env * deriv (cs dv) sz L id p r env =
-      a.f env * (deriv (cs dv) sz L id p l env * eval (cs dv) sz L r env +
-        eval (cs dv) sz L l env * deriv (cs dv) sz L id p r env)
-    ring
+    intro hg; exact sound_mul dv sz L hW hF id p l r hg (ihl hg.1) (ihr hg.2)
   | sum v e ih =>
-    intro hg a ha1 ha2
-    obtain ⟨hge, hv, hFv⟩ := hg
-    have hfv := fv_lt dv sz L hW _ hge
-    have hvn : v < n := hfv v hv
-    have han : ∀ k, a.mask k = true → k < n := by
-      intro k hk
-      rcases ha1 k hk with h | h
-      · simp only [fvMask, Bool.and_eq_true] at h; exact hfv k h.1
-      · exact hF k h
-    have hav : a.mask v = false := by
-      cases h : a.mask v
-      · rfl
-      · rcases ha1 v h with h' | h'
-        · simp [fvMask] at h'
-        · rw [hFv] at h'; exact absurd h' (by simp)
-    simp only [backward]
-    obtain ⟨ok1, ok2⟩ := agg_ok dv sz F (fvMask L e) a han ha2
-    rw [ih hge _ ok1 ok2, agg_step dv sz F (fvMask L e) a _ (deriv_indep dv sz L hW id p e hge)]
-    have hm : ∀ k, k < n →
-        ((fvMask L e k || F k) || (a.mask k && !fvMask L e k && !F k)) =
-          ((fvMask L (.sum v e) k || F k) || k == v) := by
-      intro k _
-      have h1 := ha1 k
-      simp only [fvMask] at h1 ⊢
-      by_cases hkv : k = v
-      · subst hkv; simp [hv]
-      · have : (k == v) = false := by simp [hkv]
-        cases he : fvMask L e k <;> cases hf : F k <;> cases hak : a.mask k <;> simp_all
-    rw [sumM_congr_mask dv sz hm]
-    rw [← sumM_insert dv sz hvn (by simp [fvMask, hFv])]
-    congr 1
-    rw [← sum1_mul_left dv sz v a.f _ (ha2 v hav)]
-    rfl
+    intro hg; exact sound_sum dv sz L hW hF id p v e hg (ih hg.1)
   | prod v e ih =>
-    intro hg a ha1 ha2
-    obtain ⟨hge, hv, hFv, hnz⟩ := hg
-    have hgp : Good dv sz L n F (.prod v e) := ⟨hge, hv, hFv, hnz⟩
-    have hfv := fv_lt dv sz L hW _ hge
-    have hvn : v < n := hfv v hv
-    have han : ∀ k, a.mask k = true → k < n := by
-      intro k hk
-      rcases ha1 k hk with h | h
-      · simp only [fvMask, Bool.and_eq_true] at h; exact hfv k h.1
-      · exact hF k h
-    have hav : a.mask v = false := by
-      cases h : a.mask v
-      · rfl
-      · rcases ha1 v h with h' | h'
-        · simp [fvMask] at h'
-        · rw [hFv] at h'; exact absurd h' (by simp)
-    simp only [backward]
-    -- the message  safediv(out_adj ⊗ out, arg)
-    have hb1 : ∀ k, (divNT (cs dv) (mulNT (cs dv) a (valNT (cs dv) sz L (.prod v e)))
-        (valNT (cs dv) sz L e)).mask k = true → k < n := by
-      intro k hk
-      simp only [divNT, mulNT, valNT, fvMask, Bool.or_eq_true, Bool.and_eq_true] at hk
-      rcases hk with (h | h) | h
-      · exact han k h
-      · exact hfv k h.1
-      · exact hfv k h
-    have hb2 : ∀ k, (divNT (cs dv) (mulNT (cs dv) a (valNT (cs dv) sz L (.prod v e)))
-        (valNT (cs dv) sz L e)).mask k = false →
-        Indep (divNT (cs dv) (mulNT (cs dv) a (valNT (cs dv) sz L (.prod v e)))
-          (valNT (cs dv) sz L e)).f k := by
-      intro k hk env j
-      simp only [divNT, mulNT, valNT, Bool.or_eq_false_iff] at hk ⊢
-      rw [ha2 k hk.1.1 env j, eval_indep dv sz L hW _ hgp k hk.1.2 env j,
-        eval_indep dv sz L hW e hge k hk.2 env j]
-    obtain ⟨ok1, ok2⟩ := agg_ok dv sz F (fvMask L e) _ hb1 hb2
-    rw [ih hge _ ok1 ok2, agg_step dv sz F (fvMask L e) _ _ (deriv_indep dv sz L hW id p e hge)]
-    have hm : ∀ k, k < n →
-        ((fvMask L e k || F k) || ((divNT (cs dv) (mulNT (cs dv) a (valNT (cs dv) sz L (.prod v e)))
-          (valNT (cs dv) sz L e)).mask k && !fvMask L e k && !F k)) =
-          ((fvMask L (.prod v e) k || F k) || k == v) := by
-      intro k _
-      have h1 := ha1 k
-      simp only [fvMask, divNT, mulNT, valNT] at h1 ⊢
-      by_cases hkv : k = v
-      · subst hkv; simp [hv]
-      · have : (k == v) = false := by simp [hkv]
-        cases he : fvMask L e k <;> cases hf : F k <;> cases hak : a.mask k <;> simp_all
-    rw [sumM_congr_mask dv sz hm]
-    rw [← sumM_insert dv sz hvn (by simp [fvMask, hFv])]
-    congr 1
-    funext env
-    rw [sum1_apply]
-    simp only [deriv, divNT, mulNT, valNT, eval, sumTo_eq, prodTo_eq]
-    show ∑ j ∈ range (sz v), dv (a.f (upd env v j) * ∏ i ∈ range (sz v),
-          eval (cs dv) sz L e (upd (upd env v j) v i)) (eval (cs dv) sz L e (upd env v j)) *
-          deriv (cs dv) sz L id p e (upd env v j) =
-      a.f env * ∑ j ∈ range (sz v), deriv (cs dv) sz L id p e (upd env v j) *
-          ∏ i ∈ range (sz v), (if i = j then 1 else eval (cs dv) sz L e (upd env v i))
-    rw [mul_sum]
-    apply sum_congr rfl
-    intro j hj
-    have hj' : j < sz v := mem_range.mp hj
-    simp only [upd_same]
-    rw [ha2 v hav env j]
-    rw [← prod_except hj' (fun i => eval (cs dv) sz L e (upd env v i))]
-    rw [← mul_assoc, hdv _ _ (hnz (upd env v j))]
-    ring
+    intro hg; exact sound_prod dv sz L hW hF hdv id p v e hg (ih hg.1)
   | cat v parts => intro hg; exact absurd hg (by simp [Good])
+
+/-- **C11, model level (partial: everything except `Cat` nodes).**
+    For a root `e` satisfying `Good` (with `F` = the inputs of the root), the adjoint that the reverse
+    sweep returns for leaf `id`, summed over the root inputs the leaf lacks and read at entry `p`,
+    equals the semiring derivative of `⨁_{inputs of e} e` with respect to that entry.
+
+    Full statement (not yet proved for `Cat` nodes, which `Good` excludes): the same equation with
+    `Good` extended by `cat v parts` (parts = plain leaves carrying axis `v`, sizes adding up to `sz v`). -/
+theorem adjoint_sound_partial {n : Nat} (hW : WFL n L)
+    (hdv : ∀ x y : R, y ≠ 0 → dv (x * y) y = x)
+    (e : Expr) (hg : Good dv sz L n (fvMask L e) e)
+    (id : Nat) (p : Env) (hp : ∀ k, nameMask L id k = true → p k < sz k) :
+    marginal (cs dv) sz L n (fvMask L e) id (adjoint (cs dv) sz L n e id) p =
+      sumM (cs dv) sz n (fvMask L e) (deriv (cs dv) sz L id p e) p := by
+  have hF := fv_lt dv sz L hW e hg
+  have h := adjoint_sound_gen_partial dv sz L hW hF hdv id p hp e hg (oneNT (cs dv))
+    (by intro k hk; simp [oneNT] at hk) (by intro k _ env j; rfl)
+  simp only [adjoint]
+  rw [h, sumM_congr_mask dv sz (m' := fvMask L e) (fun k _ => Bool.or_self _)]
+  congr 1; funext env
+  show 1 * deriv (cs dv) sz L id p e env = _
+  rw [one_mul]
+
+/-- A product of leaf occurrences: the derivative is the leave-one-out product (Leibniz), so for a
+    sum-product expression `deriv` is the table "sum of the product of all other factors". -/
+theorem deriv_mul_leave_one_out (id : Nat) (p : Env) (a b : Expr) (env : Env) :
+    deriv (cs dv) sz L id p (.mul a b) env =
+      deriv (cs dv) sz L id p a env * eval (cs dv) sz L b env +
+        eval (cs dv) sz L a env * deriv (cs dv) sz L id p b env := rfl
+
+/-! ### the hypotheses are satisfiable, and each is needed -/
+
+/-- concrete data over ℕ: leaf 0 = d[i,j] = [[1,0,3],[4,5,6]] over variables 0 (size 2), 1 (size 3);
+    leaf 1 = y[j] = [5,7,0] over variable 1 -/
+def wL : Leaves ℕ where
+  names := fun id => if id = 0 then [0, 1] else if id = 1 then [1] else []
+  T := fun id env =>
+    if id = 0 then
+      (if env 0 = 0 then (if env 1 = 0 then 1 else if env 1 = 1 then 0 else 3)
+       else (if env 1 = 0 then 4 else if env 1 = 1 then 5 else 6))
+    else if id = 1 then (if env 1 = 0 then 5 else if env 1 = 1 then 7 else 0)
+    else 0
+
+def wsz : Nat → Nat := fun v => if v = 0 then 2 else if v = 1 then 3 else 1
+
+/-- numpy's `safediv` on exact quotients: `0/0 = 0` -/
+def ndiv (x y : ℕ) : ℕ := if y = 0 then 0 else x / y
+
+example : ∀ x y : ℕ, y ≠ 0 → ndiv (x * y) y = x := by
+  intro x y h; simp only [ndiv, if_neg h]; exact Nat.mul_div_cancel x (Nat.pos_of_ne_zero h)
+
+def noF : Mask := fun _ => false
+def at01 : Env := fun k => if k = 1 then 1 else 0
+
+/-- KF-adjoint-plate-zero: `d.reduce(mul, j).reduce(add, i)` — the sweep returns 0 for `∂/∂d[0,1]`,
+    the derivative (product of the other entries of row 0) is 3. -/
+theorem plate_zero_witness :
+    marginal (cs ndiv) wsz wL 2 noF 0
+        (adjoint (cs ndiv) wsz wL 2 (.sum 0 (.prod 1 (.acc 0 []))) 0) at01 = 0 ∧
+      sumM (cs ndiv) wsz 2 noF (deriv (cs ndiv) wsz wL 0 at01 (.sum 0 (.prod 1 (.acc 0 [])))) at01 = 3 := by
+  decide
+
+/-- so `Good`'s "nowhere zero" clause cannot be dropped from `adjoint_sound_partial` -/
+theorem plate_zero_not_good :
+    ¬ Good ndiv wsz wL 2 noF (.sum 0 (.prod 1 (.acc 0 []))) := by
+  intro h
+  exact h.1.2.2.2 at01 (by decide)
+
+/-- ⊕ between operands with different inputs: `sum_{i,j} (d[i,j] + y[j])`-style broadcasting.  Here
+    `sum_{0,1} (y[1] + d[0,1])`: the sweep returns 1 for `∂/∂y[1]`, the derivative is 2 (= |var 0|). -/
+theorem add_broadcast_witness :
+    marginal (cs ndiv) wsz wL 2 noF 1
+        (adjoint (cs ndiv) wsz wL 2 (.sum 0 (.sum 1 (.add (.acc 1 []) (.acc 0 [])))) 1) at01 = 1 ∧
+      sumM (cs ndiv) wsz 2 noF
+        (deriv (cs ndiv) wsz wL 1 at01 (.sum 0 (.sum 1 (.add (.acc 1 []) (.acc 0 []))))) at01 = 2 := by
+  decide
+
+/-- the hypotheses of `adjoint_sound_partial` hold for `sum_{0,1} d[0,1] ⊗ y[1]` (non-vacuity) -/
+example : Good ndiv wsz wL 2 (fvMask wL (.sum 0 (.sum 1 (.mul (.acc 0 []) (.acc 1 [])))))
+    (.sum 0 (.sum 1 (.mul (.acc 0 []) (.acc 1 [])))) := by
+  refine ⟨⟨⟨Or.inl rfl, Or.inl rfl⟩, by decide, by decide⟩, by decide, by decide⟩
+
+/-- … and for a leaf read through a renaming and through a slice: `sum_2 y[1 := 2]`, `sum_2 y[1 := 1 + 2]`
+    (variable 2 has size 1) — `SubsOK` is satisfiable -/
+example : Good ndiv wsz wL 3 noF (.sum 2 (.acc 1 [(1, .var 2)])) := by
+  refine ⟨Or.inr ⟨?_, by decide, ?_, ?_⟩, by decide, rfl⟩
+  · intro q hq; simp only [List.mem_singleton] at hq; subst hq; decide
+  · intro k hk; simp only [Subst.valvars, List.any_cons, List.any_nil, Ix.dep, Bool.or_false,
+      beq_iff_eq] at hk; omega
+  · intro k hk; simp [noF] at hk
+
+example : Good ndiv wsz wL 3 noF (.sum 2 (.acc 1 [(1, .aff 2 1 1)])) := by
+  refine ⟨Or.inr ⟨?_, by decide, ?_, ?_⟩, by decide, rfl⟩
+  · intro q hq; simp only [List.mem_singleton] at hq; subst hq; decide
+  · intro k hk; simp only [Subst.valvars, List.any_cons, List.any_nil, Ix.dep, Bool.or_false,
+      beq_iff_eq] at hk; omega
+  · intro k hk; simp [noF] at hk
+
+example : WFL 2 wL := by
+  constructor
+  · intro id k hk env j
+    simp only [wL, nameMask] at hk ⊢
+    by_cases h0 : id = 0
+    · subst h0
+      have h0' : k ≠ 0 := by intro h; subst h; simp at hk
+      have h1' : k ≠ 1 := by intro h; subst h; simp at hk
+      simp [upd, Ne.symm h0', Ne.symm h1']
+    · by_cases h1 : id = 1
+      · subst h1
+        have h1' : k ≠ 1 := by intro h; subst h; simp at hk
+        simp [upd, Ne.symm h1']
+      · simp [h0, h1]
+  · intro id k hk
+    simp only [wL, nameMask] at hk
+    by_cases h0 : id = 0
+    · subst h0; simp at hk; omega
+    · by_cases h1 : id = 1
+      · subst h1; simp at hk; omega
+      · simp [h0, h1] at hk
 
 end FV.Props.C11
